@@ -104,15 +104,21 @@ fn hp(family: &'static str, quick_depth: usize, thorough_depth: usize) -> HxPlan
 pub fn run_check(prop: &str, tier: &str) -> i32 {
     const HX: &str = "breadth-first search over public-API histories from a fixed initial world; every transition executes the real library call on real keys; after each one the master key, user keys and public keys are decoded from their serialised form and compared with the reference model, and the decaps matrix (live keys x policy menu x every public key published so far) is evaluated; states are de-duplicated on the canonical (model, decoded implementation) state; a state is non-trivial/distinct by that key";
     match prop {
-        "C01" => crate::polmat::check(prop, tier, &["C01."]),
-        "C02" => crate::polmat::check(prop, tier, &["C02."]),
+        "C01" | "C02" => {
+            let own = if prop == "C01" { "C01." } else { "C02." };
+            let mut run = Run::new(prop, tier, "exploration");
+            crate::polmat::part(&mut run, tier == "thorough", &[own]);
+            // the same decision for keys that went through rotations and refreshes
+            histex_part(&mut run, tier, &[hp("auth", 3, 4)], &[own], HX);
+            run.finish()
+        }
         "C03" => histex_check(prop, tier, &[hp("edit", 4, 5)], &["C03."], HX),
-        "C04" => histex_check(prop, tier, &[hp("rot", 4, 5)], &["C04."], HX),
-        "C05" => histex_check(prop, tier, &[hp("rotdel", 4, 5), hp("rot", 3, 4)], &["C05."], HX),
-        "C06" => histex_check(prop, tier, &[hp("dis", 4, 6)], &["C06."], HX),
+        "C04" => histex_check(prop, tier, &[hp("rot", 4, 5), hp("disrot", 4, 5)], &["C04."], HX),
+        "C05" => histex_check(prop, tier, &[hp("rotdel", 4, 5), hp("rot", 3, 4), hp("disrot", 4, 5)], &["C05."], HX),
+        "C06" => histex_check(prop, tier, &[hp("dis", 4, 6), hp("disrot", 4, 5)], &["C06."], HX),
         "C07" => crate::ftamper::check_c07(prop, tier),
         "C08" => crate::ftamper::check_c08(prop, tier),
-        "C09" => histex_check(prop, tier, &[hp("args", 3, 4), hp("rotdel", 3, 4), hp("dis", 3, 4), hp("failrot", 3, 4), hp("trace", 3, 4), hp("recaps", 2, 3)], &["C09."], HX),
+        "C09" => histex_check(prop, tier, &[hp("args", 3, 4), hp("rot", 3, 4), hp("rotdel", 3, 4), hp("dis", 3, 4), hp("failrot", 3, 4), hp("trace", 3, 4), hp("recaps", 2, 3)], &["C09."], HX),
         "C10" => histex_check(prop, tier, &[hp("failrot", 3, 4), hp("args", 3, 4), hp("trace", 3, 5)], &["C10."], HX),
         "C11" => {
             let mut run = Run::new(prop, tier, "model_checking");
